@@ -1,0 +1,154 @@
+// Copyright 2020-2025 Buf Technologies, Inc.
+//
+// Licensed under the Apache License, Version 2.0 (the "License");
+// you may not use this file except in compliance with the License.
+// You may obtain a copy of the License at
+//
+//      http://www.apache.org/licenses/LICENSE-2.0
+//
+// Unless required by applicable law or agreed to in writing, software
+// distributed under the License is distributed on an "AS IS" BASIS,
+// WITHOUT WARRANTIES OR CONDITIONS OF ANY KIND, either express or implied.
+// See the License for the specific language governing permissions and
+// limitations under the License.
+
+//go:build verif
+
+package bufmodulestore
+
+// Contracts for the gocv verifier (see /verif/DESIGN.md). Comment-only. (author ca-U)
+//
+// C09, read path of the module data store and the commit store. Sequential, error-return part only (crash points,
+// racing processes, the file lock and the OS are outside the technique, /verif/DESIGN.md section 4).
+//
+// getModuleDataForModuleKey (directory layout unless said otherwise):
+//   - read-failure-is-miss: any failing read (missing marker included) is returned as an error, never turned into a hit;
+//     tar layout: a failed unpack of the tar into the in-memory bucket is an error (storagearchive.Untar's contract
+//     promises only that WRITE failures are reported, hence the separate clause on ghost.wfail);
+//   - marker-valid / only-marker-read-before-validation: the module data is read only after module.yaml has been read and
+//     found valid, and nothing but module.yaml has been read up to that point;
+//   - hit-for-requested-key: a hit is a ModuleData for exactly the requested key;
+//   - only-entry-dir: every bucket touched is a view of the store's bucket mapped onto the directory of the requested
+//     key (u_viewBase / u_viewMapper, /verif/specs/C09.spec); nothing-written: a read writes nothing.
+// NOT claimed: `retErr != nil ==> retValue == nil` - it fails on the tree (a failing Unlock of the shared lock is joined
+// into retErr after the value has been built). The documentation only says "any error ... is treated as a cache miss"; that
+// is what GetModuleDatasForModuleKeys does, and it is stated there (partition / found-are-requested).
+// NOT stated: which paths are read after the marker (the record lives in a local whose address is taken for the YAML
+// decoder, and the uncontracted parsers called by getDepModuleKeyForExternalModuleDataDep havoc the modelled heap).
+//@ func (p *moduleDataStore) getModuleDataForModuleKey(ctx, moduleKey) (retValue, retErr)
+//@   property C09
+//@   modifies heap, ghost.fail, ghost.wfail, ghost.sinkPaths, ghost.sinkBuckets, ghost.lastPutOptions
+//@   ensures read-failure-is-miss: !old(p.tar) && ghost.fail && !old(ghost.fail) ==> retErr != nil
+//@   ensures tar-unpack-failure-is-miss: old(p.tar) && ghost.wfail && !old(ghost.wfail) ==> retErr != nil
+//@   ensures hit-for-requested-key: retErr == nil ==> retValue != nil && retValue.ModuleKey() == moduleKey
+//@   ensures only-entry-dir: !old(p.tar) ==> (forall b ref :: b in ghost.sinkBuckets && !(b in old(ghost.sinkBuckets)) ==> u_viewBase(b) == old(p.bucket) && u_viewMapper(b) == storage.MapOnPrefix(first(getModuleDataStoreDirPath(moduleKey))))
+//@   ensures nothing-written: !old(p.tar) ==> ghost.lastPutOptions == old(ghost.lastPutOptions) && (ghost.wfail == old(ghost.wfail))
+//@   assert before "depModuleKeys, err := slicesext.MapError(" marker-valid: externalModuleData.isValid()
+//@   assert before "depModuleKeys, err := slicesext.MapError(" only-marker-read-before-validation: !old(p.tar) ==> (forall q string :: q in ghost.sinkPaths && !(q in old(ghost.sinkPaths)) ==> q == externalModuleDataFileName)
+//
+//@ func getDepModuleKeyForExternalModuleDataDep(dep) (r, err)
+//@   property C09
+//@   modifies heap
+//@   ensures incomplete-dep-rejected: dep.Name == "" || dep.Commit == "" || dep.Digest == "" ==> err != nil
+//
+//@ func (p *moduleDataStore) GetModuleDatasForModuleKeys(ctx, moduleKeys) (found, notFound, err)
+//@   property C09
+//@   modifies heap, ghost.fail, ghost.wfail, ghost.sinkPaths, ghost.sinkBuckets, ghost.lastPutOptions
+//@   ensures never-fails: err == nil
+//@   ensures partition: len(found) + len(notFound) == len(moduleKeys)
+//@   ensures found-are-requested: forall j int :: 0 <= j && j < len(found) ==> found[j] != nil && (exists i int :: 0 <= i && i < len(moduleKeys) && found[j].ModuleKey() == moduleKeys[i])
+//@   ensures not-found-are-requested: forall j int :: 0 <= j && j < len(notFound) ==> (exists i int :: 0 <= i && i < len(moduleKeys) && notFound[j] == moduleKeys[i])
+//@   loop 0 invariant len(foundModuleDatas) + len(notFoundModuleKeys) == $i
+//@   loop 0 invariant forall j int :: 0 <= j && j < len(foundModuleDatas) ==> foundModuleDatas[j] != nil && (exists i int :: 0 <= i && i < $i && foundModuleDatas[j].ModuleKey() == moduleKeys[i])
+//@   loop 0 invariant forall j int :: 0 <= j && j < len(notFoundModuleKeys) ==> (exists i int :: 0 <= i && i < $i && notFoundModuleKeys[j] == moduleKeys[i])
+//
+//@ func (p *moduleDataStore) PutModuleDatas(ctx, moduleDatas) (err)
+//@   property C09
+//@   modifies heap, ghost.fail, ghost.wfail, ghost.sinkPaths, ghost.sinkBuckets, ghost.lastPutOptions, ghost.buf, ghost.u_sawComplete
+//@   requires !ghost.wfail
+//@   ensures failure-reported: ghost.wfail ==> err != nil
+//@   loop 0 invariant !ghost.wfail
+//
+//@ func (p *moduleDataStore) getReadBucketForTar(ctx, moduleKey) (r, retErr)
+//@   property C09
+//@   modifies heap, ghost.fail, ghost.wfail, ghost.sinkPaths, ghost.sinkBuckets, ghost.lastPutOptions
+//@   ensures unpack-failure-is-error: ghost.wfail && !old(ghost.wfail) ==> retErr != nil
+//
+// ---- commit_store.go: the same pattern for cached commits (one JSON file per commit, written atomically).
+// A commit file that is unreadable, corrupted, of another version / incomplete, or for another digest type is a MISS
+// (reported as fs.ErrNotExist after the file has been deleted), never a hit; a hit always carries a Commit.
+//@ trusted pure interface bufmodule.CommitKey
+//@ func (p *commitStore) getCommitForCommitKey(ctx, commitKey, expectedDigest) (r, retErr)
+//@   property C09
+//@   modifies heap, ghost.fail, ghost.wfail, ghost.sinkPaths, ghost.sinkBuckets
+//@   ensures read-failure-is-miss: ghost.fail && !old(ghost.fail) ==> retErr != nil
+//@   ensures hit-has-value: retErr == nil ==> r != nil
+//@   ensures miss-has-no-value: retErr != nil ==> r == nil
+//@   ensures only-commit-file: (forall b ref :: b in ghost.sinkBuckets && !(b in old(ghost.sinkBuckets)) ==> u_viewBase(b) == old(p.bucket) && u_viewMapper(b) == storage.MapOnPrefix(getCommitStoreDirPath(commitKey))) && (forall q string :: q in ghost.sinkPaths && !(q in old(ghost.sinkPaths)) ==> q == getCommitStoreFilePath(commitKey))
+//@   assert before "digest, err := bufmodule.ParseDigest(externalCommit.Digest)" record-valid: externalCommit.isValid()
+//@   assert before "moduleFullName, err := bufparse.NewFullName(" digest-type-matches-key: commitKey.DigestType() == digest.Type()
+//
+//@ func (p *commitStore) putCommit(ctx, commit) (retErr)
+//@   property C09
+//@   modifies heap, ghost.fail, ghost.wfail, ghost.sinkPaths, ghost.sinkBuckets, ghost.lastPutOptions
+//@   ensures failure-reported: ghost.wfail && !old(ghost.wfail) ==> retErr != nil
+//@   ensures single-atomic-put: retErr == nil ==> len(ghost.lastPutOptions) == 1 && ghost.lastPutOptions[0] == storage.PutWithAtomic()
+//@   ensures only-one-file-in-store-view: (forall b1 ref, b2 ref :: b1 in ghost.sinkBuckets && !(b1 in old(ghost.sinkBuckets)) && b2 in ghost.sinkBuckets && !(b2 in old(ghost.sinkBuckets)) ==> b1 == b2) && (forall q1 string, q2 string :: q1 in ghost.sinkPaths && !(q1 in old(ghost.sinkPaths)) && q2 in ghost.sinkPaths && !(q2 in old(ghost.sinkPaths)) ==> q1 == q2)
+//@   assert before "externalCommit := externalCommit{" commit-file-in-commit-dir: u_viewBase(bucket) == p.bucket && u_viewMapper(bucket) == storage.MapOnPrefix(getCommitStoreDirPath(commitKey)) && path == getCommitStoreFilePath(commitKey)
+//@   assert before "data, err := json.Marshal(externalCommit)" only-valid-records-written: externalCommit.isValid()
+//
+// The eviction of an invalid commit file: deletes exactly that file in the commit directory view and always reports a miss.
+//@ func (p *commitStore) deleteInvalidCommitFile(ctx, commitKey, bucket, path, invalidReason, invalidErr) (r)
+//@   property C09
+//@   modifies ghost.fail, ghost.wfail, ghost.sinkPaths, ghost.sinkBuckets
+//@   ensures always-a-miss: r != nil
+//@   ensures deletes-only-that-file: ghost.sinkPaths == add(old(ghost.sinkPaths), path) && ghost.sinkBuckets == add(old(ghost.sinkBuckets), bucket)
+//
+//@ func (p *commitStore) getReadWriteBucketForDir(ctx, commitKey) (r)
+//@   property C09
+//@   ensures commit-dir-view: r != nil && u_viewBase(r) == old(p.bucket) && u_viewMapper(r) == storage.MapOnPrefix(getCommitStoreDirPath(commitKey))
+//@ trusted func (p *commitStore) logDebugCommitKey(ctx, commitKey, message, fields)
+//@ pure func getCommitStoreDirPath(commitKey) (r)
+//@   property C09
+//@   ensures r == normalpath.Join(commitKey.DigestType().String(), commitKey.Registry())
+//@ pure func getCommitStoreFilePath(commitKey) (r)
+//@   property C09
+//@   ensures r == uuidutil.ToDashless(commitKey.CommitID()) + ".json"
+//@ pure func (e externalCommit) isValid() (r)
+//@   property C09
+//@   ensures r <==> e.Version == externalCommitVersion && e.Owner != "" && e.Module != "" && !e.CreateTime.IsZero() && e.Digest != ""
+//
+//@ func (p *commitStore) GetCommitsForCommitKeys(ctx, commitKeys) (found, notFound, err)
+//@   property C09
+//@   modifies heap, ghost.fail, ghost.wfail, ghost.sinkPaths, ghost.sinkBuckets
+//@   ensures partition: err == nil ==> len(found) + len(notFound) == len(commitKeys)
+//@   ensures found-have-values: err == nil ==> (forall j int :: 0 <= j && j < len(found) ==> found[j] != nil)
+//@   ensures not-found-are-requested: err == nil ==> (forall j int :: 0 <= j && j < len(notFound) ==> (exists i int :: 0 <= i && i < len(commitKeys) && notFound[j] == commitKeys[i]))
+//@   ensures error-has-no-values: err != nil ==> isNilSlice(found) && isNilSlice(notFound)
+//@   loop 0 invariant len(foundCommits) + len(notFoundCommitKeys) == $i
+//@   loop 0 invariant forall j int :: 0 <= j && j < len(foundCommits) ==> foundCommits[j] != nil
+//@   loop 0 invariant forall j int :: 0 <= j && j < len(notFoundCommitKeys) ==> (exists i int :: 0 <= i && i < $i && notFoundCommitKeys[j] == commitKeys[i])
+//
+//@ func (p *commitStore) GetCommitsForModuleKeys(ctx, moduleKeys) (found, notFound, err)
+//@   property C09
+//@   modifies heap, ghost.fail, ghost.wfail, ghost.sinkPaths, ghost.sinkBuckets
+//@   ensures partition: err == nil ==> len(found) + len(notFound) == len(moduleKeys)
+//@   ensures found-have-values: err == nil ==> (forall j int :: 0 <= j && j < len(found) ==> found[j] != nil)
+//@   ensures not-found-are-requested: err == nil ==> (forall j int :: 0 <= j && j < len(notFound) ==> (exists i int :: 0 <= i && i < len(moduleKeys) && notFound[j] == moduleKeys[i]))
+//@   ensures error-has-no-values: err != nil ==> isNilSlice(found) && isNilSlice(notFound)
+//@   loop 0 invariant len(foundCommits) + len(notFoundModuleKeys) == $i
+//@   loop 0 invariant forall j int :: 0 <= j && j < len(foundCommits) ==> foundCommits[j] != nil
+//@   loop 0 invariant forall j int :: 0 <= j && j < len(notFoundModuleKeys) ==> (exists i int :: 0 <= i && i < $i && notFoundModuleKeys[j] == moduleKeys[i])
+//
+//@ func (p *commitStore) PutCommits(ctx, commits) (err)
+//@   property C09
+//@   modifies heap, ghost.fail, ghost.wfail, ghost.sinkPaths, ghost.sinkBuckets, ghost.lastPutOptions
+//@   ensures failure-reported: ghost.wfail && !old(ghost.wfail) ==> err != nil
+//@   loop 0 invariant ghost.wfail ==> old(ghost.wfail)
+//
+// Tar layout, store side: the callback that writes the tar (closure 0; it runs only after every write into the in-memory
+// bucket succeeded, see putModuleData) reports every write failure, including the Close of the atomically put tar object.
+//@ func (p *moduleDataStore) getWriteBucketAndCallbackForTar(moduleKey) (r, callback)
+//@   property C09
+//@   modifies heap
+//@   closure 0 ensures tar-write-failure-reported: ghost.wfail && !old(ghost.wfail) ==> err != nil
